@@ -67,7 +67,7 @@ fn ops(cfg: &EnumCfg, t: Tid) -> Vec<Op> {
 /// Possible values of `acc` after `op` executed with possible values `p` (bitmask over {0,1,2}).
 fn effect(op: &Op, p: u8) -> u8 {
   match op {
-    Op::Req(_, oc) => match oc { OC::Equals | OC::PieEquals => 0b111, OC::IsZero => 0b011, OC::Always | OC::PieAlways | OC::Near => p },
+    Op::Req(_, oc) => match oc { OC::Equals | OC::PieEquals => 0b111, OC::IsZero => 0b011, OC::Always | OC::PieAlways | OC::Near | OC::UnitPred => p },
     Op::Read(_, rc) => match rc { RC::Exact | RC::Faulty => 0b111, RC::Exists => 0b011, RC::Always => p },
     Op::Write(..) | Op::WriteDecl(..) => p,
     Op::Panic => 0,
